@@ -28,6 +28,13 @@ Theorem C01_geometry_roundtrip : forall g i d, i < g_total g -> d < g_step g ->
 Proof. exact index_of_addr_of. Qed.
 Print Assumptions C01_geometry_roundtrip.
 
+(* byte-wise addition without carry (epoch indexToIP, dhcp.Pool, nexus) is plain addition for every base
+   aligned to 2^k and every offset below 2^k, k <= 32: no geometry makes a byte overflow *)
+Theorem C01_nocarry_is_addition : forall base off k,
+  k <= 32 -> base < 4294967296 -> base mod 2 ^ k = 0 -> off < 2 ^ k -> add_nocarry32 base off = base + off.
+Proof. exact nocarry_is_addition. Qed.
+Print Assumptions C01_nocarry_is_addition.
+
 (* ---------- bitmap allocator (allocator.IPAllocator), every history ---------- *)
 Theorem C01_bitmap_unique : forall g ops h1 h2 u, bholds g ops h1 u -> bholds g ops h2 u -> h1 = h2.
 Proof. exact bitmap_unique. Qed.
@@ -86,6 +93,13 @@ Proof. exact epoch_in_range_run. Qed.
 Print Assumptions C01_epoch_in_range.
 
 (* asking again: same unit from Allocate and from Lookup, still held afterwards, lease renewed *)
+Theorem C01_epoch_unit_is_base_plus_slot : forall base ppl pl grace ops i,
+  ppl <= pl -> pl <= 32 -> base < 4294967296 -> base mod 2 ^ (32 - ppl) = 0 ->
+  i < e_total (erun base ppl pl grace ops) ->
+  eunit (erun base ppl pl grace ops) i = base + i /\ base + i < base + 2 ^ (32 - ppl).
+Proof. exact epoch_unit_is_addition. Qed.
+Print Assumptions C01_epoch_unit_is_base_plus_slot.
+
 Theorem C01_epoch_stable : forall base ppl pl grace ops h i,
   aget h (e_subs (erun base ppl pl grace ops)) = Some i ->
   EpochProofs.outp (erun base ppl pl grace ops) (Alloc h) = OUnit (eunit (erun base ppl pl grace ops) i) /\
@@ -178,6 +192,16 @@ Print Assumptions C01_hash_unique_refuted_slash24.
 Theorem C01_hash_in_range_refuted : hash_usable c26 (hash_addr c26 11) = false.
 Proof. exact hash_in_range_refuted. Qed.
 Print Assumptions C01_hash_in_range_refuted.
+
+(* ... and proved under the guard "the CIDR is written with its network address" (and at least a /30) *)
+Theorem C01_hash_in_range_partial : forall c h,
+  h_ppl c <= 30 -> h_base c < 4294967296 -> h_base c mod h_size c = 0 -> hash_usable c (hash_addr c h) = true.
+Proof. exact hash_in_range_partial. Qed.
+Print Assumptions C01_hash_in_range_partial.
+
+Example C01_hash_guard_satisfiable :
+  h_ppl c24 <= 30 /\ h_base c24 < 4294967296 /\ h_base c24 mod h_size c24 = 0.
+Proof. exact hash_in_range_guard_satisfiable. Qed.
 
 Theorem C01_hash_stable : forall c ops h a, aget h (hs_addr (hrun c ops)) = Some a ->
   HashAlloc.step (hrun c ops) (Alloc h) = (hrun c ops, OUnit a, []).
